@@ -533,9 +533,25 @@ func c05R4(a *A, r *Roles, rule string) {
 
 // nonNilReason: v, sent as the reader's reason from block b of f, cannot be nil: by construction, by a dominating nil test,
 // or - when it is a parameter of a helper - at every call site of that helper in the reader's code.
+var nonNilPhiBusy = map[*ssa.Phi]bool{}
+
 func nonNilReason(v ssa.Value, b *ssa.BasicBlock, f *ssa.Function, reach map[*ssa.Function]bool, depth int) bool {
 	if provablyNonNilErr(v) || nonNilAt(v, b) {
 		return true
+	}
+	// a reason variable assigned on several paths (single-exit form): every incoming value is non-nil where it is assigned
+	if phi, isPhi := resolve(v).(*ssa.Phi); isPhi && depth <= 2 {
+		if nonNilPhiBusy[phi] {
+			return true // the phi itself, round a loop: adds no value of its own
+		}
+		nonNilPhiBusy[phi] = true
+		defer delete(nonNilPhiBusy, phi)
+		for i, e := range phi.Edges {
+			if i >= len(phi.Block().Preds) || !nonNilReason(e, phi.Block().Preds[i], f, reach, depth) {
+				return false
+			}
+		}
+		return len(phi.Edges) > 0
 	}
 	p, ok := resolve(v).(*ssa.Parameter)
 	if !ok || depth > 2 {
@@ -1163,6 +1179,13 @@ func c05R9(a *A, r *Roles) {
 				cv, cf := resolve(done.Common().Value), f
 				for hop := 0; hop < 3 && cf != r.Parser; hop++ {
 					p, isP := cv.(*ssa.Parameter)
+					fieldName := ""
+					if !isP {
+						// the context travels as a field of a small struct passed by value (a helper type with methods)
+						if pp, fn, ok := paramField(cv); ok {
+							p, isP, fieldName = pp, true, fn
+						}
+					}
 					if !isP {
 						break
 					}
@@ -1184,6 +1207,14 @@ func c05R9(a *A, r *Roles) {
 					}
 					if idx < 0 || nSites != 1 || idx >= len(site.Common().Args) {
 						break
+					}
+					if fieldName != "" {
+						src, ok := fieldsOfValue(strip(site.Common().Args[idx]), 0)[fieldName]
+						if !ok || src.Val == nil {
+							break
+						}
+						cv, cf = resolve(src.Val), site.Parent()
+						continue
 					}
 					cv, cf = resolve(site.Common().Args[idx]), site.Parent()
 				}
@@ -1427,3 +1458,66 @@ func c05R11(a *A, r *Roles) {
 }
 
 func ast_isExported(name string) bool { return len(name) > 0 && name[0] >= 'A' && name[0] <= 'Z' }
+
+// paramField: v reads field F of a struct-typed parameter passed by value - `Field(param, i)`, or a load of `&spill.F`
+// where spill is the local copy go/ssa makes of such a parameter (its only store is the parameter itself).
+func paramField(v ssa.Value) (*ssa.Parameter, string, bool) {
+	name := func(t types.Type, i int) (string, bool) {
+		st := structOf(t)
+		if st == nil || i < 0 || i >= st.NumFields() {
+			return "", false
+		}
+		return st.Field(i).Name(), true
+	}
+	switch x := v.(type) {
+	case *ssa.Field:
+		if p, ok := x.X.(*ssa.Parameter); ok {
+			n, ok := name(p.Type(), x.Field)
+			return p, n, ok
+		}
+	case *ssa.UnOp:
+		if x.Op != token.MUL {
+			return nil, "", false
+		}
+		fa, ok := x.X.(*ssa.FieldAddr)
+		if !ok {
+			return nil, "", false
+		}
+		al, ok := fa.X.(*ssa.Alloc)
+		if !ok || al.Referrers() == nil {
+			return nil, "", false
+		}
+		var p *ssa.Parameter
+		for _, ref := range *al.Referrers() {
+			switch r := ref.(type) {
+			case *ssa.Store:
+				if r.Addr != ssa.Value(al) {
+					return nil, "", false
+				}
+				q, isP := r.Val.(*ssa.Parameter)
+				if !isP || p != nil {
+					return nil, "", false
+				}
+				p = q
+			case *ssa.FieldAddr:
+				// its uses must be loads only
+				if r.Referrers() != nil {
+					for _, rr := range *r.Referrers() {
+						if u, isU := rr.(*ssa.UnOp); !isU || u.Op != token.MUL {
+							return nil, "", false
+						}
+					}
+				}
+			case *ssa.DebugRef:
+			default:
+				return nil, "", false
+			}
+		}
+		if p == nil {
+			return nil, "", false
+		}
+		n, ok := name(p.Type(), fa.Field)
+		return p, n, ok
+	}
+	return nil, "", false
+}
